@@ -414,3 +414,38 @@ def wide_ws_requirements(rng, n, valid_pool):
         else:
             out.append(ws_mutate(rng, malformed_req(rng, valid_pool)))
     return out
+
+
+NORMALISED_EXTRAS = [b"test", b"dev", b"docs", b"foo-bar", b"a-b", b"x", b"socks", b"security"]
+REAL_ENV_ATOMS = [("python_version", "<", b"3.8"), ("python_version", ">=", b"3.8"), ("python_version", "<", b"3.10"),
+                  ("python_full_version", ">=", b"3.9.0"), ("python_version", "==", b"3.9"), ("python_version", "!=", b"3.7"),
+                  ("sys_platform", "==", b"win32"), ("sys_platform", "!=", b"win32"), ("sys_platform", "==", b"linux"),
+                  ("os_name", "==", b"nt"), ("os_name", "==", b"posix"), ("platform_system", "==", b"Linux"),
+                  ("platform_system", "!=", b"Windows"), ("platform_python_implementation", "==", b"CPython"),
+                  ("implementation_name", "==", b"cpython"), ("platform_machine", "in", b"x86_64 arm64"),
+                  ("python_version", "~=", b"3.8"), ("implementation_version", ">=", b"3.9")]
+
+
+def extra_and_env(rng, env):
+    """extra == "x" and <environment comparison> (either order, sometimes parenthesised or with an or-alternative),
+    with two or more normalised requested extras most of the time"""
+    x = rng.choice(NORMALISED_EXTRAS)
+    ea = [0, wsp(rng, 0.2), wsp(rng), b"", wsp(rng), [0, EXTRA, 3, [1 if rng.random() < 0.6 else 0, x]]]
+    v, o, lit = rng.choice(REAL_ENV_ATOMS)
+    va = [0, wsp(rng, 0.2), wsp(rng), wsp(rng, 0.2), wsp(rng), [0, VARS.index(v), OPS.index(o), [1 if rng.random() < 0.6 else 0, lit]]]
+    r = rng.random()
+    if r < 0.5:
+        t = [1, ea, wsp(rng), va]
+    elif r < 0.75:
+        t = [1, va, wsp(rng), ea]
+    elif r < 0.9:
+        v2, o2, lit2 = rng.choice(REAL_ENV_ATOMS)
+        vb = [0, b"", wsp(rng), b" ", wsp(rng), [0, VARS.index(v2), OPS.index(o2), [1, lit2]]]
+        t = [1, ea, wsp(rng), [3, wsp(rng, 0.2), [2, va, wsp(rng), vb], wsp(rng, 0.2)]]
+    else:
+        t = [2, [1, ea, wsp(rng), va], wsp(rng), [1, [0, b"", b" ", b"", b" ", [0, EXTRA, 3, [1, x]]], b" ", va]]
+    k = rng.choice([0, 1, 2, 2, 3, 3])
+    req = rng.sample(NORMALISED_EXTRAS, k)
+    if k and rng.random() < 0.6 and x not in req:
+        req[rng.randrange(k)] = x
+    return t, req
